@@ -50,6 +50,13 @@ namespace scan {
       type() { reset(); }
 
       bool scan(typename Reclaimer::epoch_t epoch) {
+        if (at_begin) {
+          // The head of the thread list must not be loaded before the seq_cst-fence of the critical region entry
+          // in which this pass starts - otherwise a thread that has registered itself and entered its critical
+          // region in the meantime could be missed.
+          thread_iterator = Reclaimer::global_thread_block_list.begin();
+          at_begin = false;
+        }
         for (unsigned i = 0; i < N; ++i) {
           // TSan does not support explicit fences, so we cannot rely on the acquire-fence (6)
           // but have to perform an acquire-load here to avoid false positives.
@@ -64,9 +71,10 @@ namespace scan {
         return false;
       }
 
-      void reset() { thread_iterator = Reclaimer::global_thread_block_list.begin(); }
+      void reset() { at_begin = true; }
 
     private:
+      bool at_begin = true;
       typename detail::thread_block_list<typename Reclaimer::thread_control_block>::iterator thread_iterator;
     };
   };
@@ -354,6 +362,12 @@ private:
       update_local_epoch(epoch);
     } else if (critical_entries_since_update++ == Traits::scan_frequency) {
       critical_entries_since_update = 0;
+      // The scan needs a seq_cst-fence of its own that is sequenced after the acquire-load of the global epoch (5):
+      // With region extension the fence (3) is not executed for every guard_ptr that is created inside a region. And
+      // a thread T that is missed by this scan (because its fence (3) follows this fence in the total order of
+      // seq_cst operations) must not be able to obtain a reference to a node that has been unlinked before the
+      // current epoch was published; this only holds if that publication happens-before this fence.
+      XENIUM_THREAD_FENCE(std::memory_order_seq_cst);
       if (scan_strategy.scan(epoch)) {
         epoch = update_global_epoch(epoch, epoch + 1);
         update_local_epoch(epoch);
